@@ -22,6 +22,7 @@ ID_KEYS = "C13 template output order-dependent: sprig keys/values return Go map 
 ID_INSERT = ("C13 render outcome order-dependent: a template output named *.gotmpl is inserted into the "
              "file map while it is ranged over")
 ID_NONDET = "C13 repeated renders of an unchanged package differ"
+ID_CTX = "C13 rendering mutates the render context (config) / repeated renders with the same context differ"
 ID_COLLECT = "C13 collected phases lose, duplicate, misplace, reorder or mislabel objects"
 ID_EXPECT = "C13 rendered phases differ from the objects the package contains"
 ID_ACCEPTED = "C13 invalid package is rendered instead of rejected"
@@ -104,12 +105,13 @@ class Ctx:
         self.flag = r.random() < 0.5
         self.count = r.choice([0, 1, 2, 3])
         self.tags = {k: r.choice(["1", "two", "x-y"]) for k in r.sample(["env", "team", "zone", "rev"], r.randint(0, 3))}
+        self.items = r.sample(["i1", "i2", "i3"], r.randint(0, 3))
         self.openshift = r.random() < 0.4
         self.kube = r.choice(["v1.27.3", "v1.29.0", "v1.30.1"])
         # what is passed explicitly; the rest comes from the schema defaults
-        self.given = {k for k in ("prefix", "flag", "count", "tags") if r.random() < 0.7}
-        self.defaults = {"prefix": "dflt", "flag": False, "count": 2, "tags": {}}
-        for k in ("prefix", "flag", "count", "tags"):
+        self.given = {k for k in ("prefix", "flag", "count", "tags", "items") if r.random() < 0.7}
+        self.defaults = {"prefix": "dflt", "flag": False, "count": 2, "tags": {}, "items": []}
+        for k in ("prefix", "flag", "count", "tags", "items"):
             if k not in self.given:
                 setattr(self, k, self.defaults[k])
 
@@ -258,7 +260,8 @@ def manifest_text(name, phases, ctx, cond_paths, images, components, scopes=("Na
     m += ["  config:", "    openAPIV3Schema:", "      type: object", "      properties:",
           "        prefix: {type: string, default: dflt}", "        flag: {type: boolean, default: false}",
           "        count: {type: integer, default: 2}",
-          "        tags: {type: object, additionalProperties: {type: string}, default: {}}"]
+          "        tags: {type: object, additionalProperties: {type: string}, default: {}}",
+          "        items: {type: array, items: {type: string}, default: []}"]
     m += ["  filter:", "    conditions:", "    - name: isFlag", "      expression: config.flag == true",
           "    - name: onOpenShift", "      expression: has(environment.openShift)",
           "    - name: always", "      expression: \"true\""]
@@ -281,6 +284,49 @@ HELPERS = ('{{- define "pkg.app" -}}{{ .package.metadata.name }}-app{{- end -}}\
            '{{- define "pkg.unused" -}}{{ include "pkg.app" . | upper }}{{- end -}}\n')
 
 
+def gen_mutator(r, ctx, phases, pname):
+    """Templates that WRITE to .config (sprig set/unset/merge/append), another template that reads the
+    key, and objects whose CEL condition is on that key. The template context is a per-render copy
+    (template.go templateContext), shared by the templates of one render in sorted path order: a
+    reader sorted after the writer sees the change, one sorted before does not, and the CEL filter
+    stage - which gets the caller's context - never does."""
+    op = r.choice(["set", "unset", "merge", "append"])
+    n = len(ctx.items)
+    has_env = "env" in ctx.tags
+    write, read, before, after, cel_true, cel_false = {
+        "set": ('set .config "injected" "yes"', 'default "no" (get .config "injected")', "no", "yes",
+                "!has(config.injected)", "has(config.injected)"),
+        "merge": ('merge .config (dict "merged" "m")', 'default "no" (get .config "merged")', "no", "m",
+                  "!has(config.merged)", "has(config.merged)"),
+        "unset": ('unset .config.tags "env"', 'hasKey .config.tags "env" | toString', str(has_env).lower(), "false",
+                  '("env" in config.tags) == %s' % str(has_env).lower(), '("env" in config.tags) != %s' % str(has_env).lower()),
+        "append": ('set .config "items" (append .config.items "extra")', "len .config.items | toString", str(n), str(n + 1),
+                   "size(config.items) == %d" % n, "size(config.items) > %d" % n),
+    }[op]
+    wpath = r.choice(["m/writer.yaml", "a/0w.yaml", "b/w.yml"])
+    rpath = r.choice(["0-reader.yaml", "zz-reader.yaml", "a/0a-reader.yaml", "n/reader.yaml"])
+    cpath = r.choice(["cel-mut.yaml", "a/cel-mut.yaml", "zz/cel-mut.yml"])
+    ph = lambda: r.choice(phases)
+    files, per_file = {}, {}
+    p1, p2, p3, p4 = ph(), ph(), ph(), ph()
+    files[wpath + ".gotmpl"] = "{{- $_ := %s }}\n%s" % (write, cm("mut-writer", p1, "k", "v"))
+    per_file[wpath] = [{"id": "ConfigMap//mut-writer", "phase": p1, "annos": {}, "labels": {}, "collision": "",
+                        "condmap": False, "keep": True}]
+    seen = after if (wpath + ".gotmpl") < (rpath + ".gotmpl") else before
+    files[rpath + ".gotmpl"] = cm("mut-reader", p2, "k", "v").replace(
+        "  annotations:\n", "  annotations:\n    seen: {{ %s | quote }}\n" % read)
+    per_file[rpath] = [{"id": "ConfigMap//mut-reader", "phase": p2, "annos": {"seen": seen}, "labels": {}, "collision": "",
+                        "condmap": False, "keep": True}]
+
+    def celdoc(name, phase, expr):
+        return cm(name, phase, "k", "v").replace("  annotations:\n", "  annotations:\n    %s: %s\n" % (A_CEL, q(expr)))
+    files[cpath] = celdoc("mut-kept", p3, cel_true) + "---\n" + celdoc("mut-dropped", p4, cel_false)
+    per_file[cpath] = [
+        {"id": "ConfigMap//mut-kept", "phase": p3, "annos": {}, "labels": {}, "collision": "", "condmap": False, "keep": True},
+        {"id": "ConfigMap//mut-dropped", "phase": p4, "annos": {}, "labels": {}, "collision": "", "condmap": False, "keep": False}]
+    return files, per_file
+
+
 def glob_match(glob, path):
     if glob.endswith("/**"):
         return path.startswith(glob[:-2])
@@ -301,6 +347,11 @@ def gen_package(r, ctx, mname, pname, names, allow_paths=True):
         files[p + (".gotmpl" if templated else "")] = content
         base = p.rsplit("/", 1)[-1]
         per_file[p] = [] if base.startswith("_") else exp
+    if r.random() < 0.35:
+        mfiles, mper = gen_mutator(r, ctx, phases, pname)
+        files.update(mfiles)
+        per_file.update(mper)
+        paths = paths + sorted(mper)
     if any_tmpl:
         files[r.choice(["_helpers.gotmpl", "templates/_helpers.yaml.gotmpl", "a/_h.tpl.gotmpl"])] = HELPERS
         files["files/static.txt"] = "static content\n"
@@ -523,7 +574,7 @@ def kvs(m, kint, vint):
     return cL([cP(cN(kint(k)), cN(vint(v))) for k, v in sorted(m.items())])
 
 
-def case_term(g, identical, expected):
+def case_term(g, identical, ctx_unchanged, expected):
     val = Intern(start=1)
     akey, lkey = Intern(CONTROL), Intern(COMMON)
     phases = cL([cN(val(p)) for p in g["manifest_phases"] or []])
@@ -543,7 +594,7 @@ def case_term(g, identical, expected):
     exp = cL([cP(cN(val(p["name"])), cL([out_obj(o, o["annos"] or None) for o in p["objs"]]))
               for p in (expected or [])])
     sc = cP(phases, cN(val(g["manifest_name"])), cN(val(g["pname"])), cL(files))
-    return cP(sc, cP(cB(identical), out), exp)
+    return cP(sc, cP(cB(identical), cB(ctx_unchanged), out), exp)
 
 
 TEMPLATE_SUFFIX = ".gotmpl"   # packagetypes/utils.go:13
@@ -561,8 +612,8 @@ def tcase_term(g):
               cL([cP(cN(pid(p)), cN(pid(p[:-len(TEMPLATE_SUFFIX)]))) for p in tm_all]), fl(after))
 
 
-JUDGE = ("(fun ct => let '(c, t) := ct in let '(s, (i, o), e) := c in "
-         "(agree c, monitor c, monitor (s, (true, o), e), expect_ok c, tagree t))")
+JUDGE = ("(fun ct => let '(c, t) := ct in let '(s, (i, u, o), e) := c in "
+         "(agree c, monitor c, monitor (s, (true, true, o), e), expect_ok c, tagree t))")
 
 
 def nondet_identity(cls):
@@ -574,6 +625,8 @@ def slim(sc, obs=None):
     out = {"scenario": sc}
     if obs is not None:
         out["impl"] = {"all_identical": obs["all_identical"], "distinct_outputs": obs["distinct_outputs"],
+                       "ctx_before": obs.get("ctx_before"), "ctx_after": obs.get("ctx_after"),
+                       "ctx_unchanged": obs.get("ctx_unchanged"),
                        "deploy_outs": obs.get("deploy_outs"),
                        "groups": [{"count": g["count"], "err": g["err"], "hash": g["hash"], "json": g["json"][:1500],
                                    "phases": g["phases"], "files": g["files"]} for g in obs["groups"][:4]]}
@@ -637,6 +690,8 @@ def check(run, tier, seed, replay=None):
         "by 10a6940) are proved order-independent for all enumerations in the model",
         "manifest phase names pairwise different (ValidatePackageManifest) and paths free of NUL bytes, checked per case",
         "validateConstraints (needs an API client) is covered by C16; the harness runs Deploy with no constraints",
+        "input preservation: one render context object is shared by the N stepwise renders of a package and its JSON digest is "
+        "compared before the first and after the last render (the real Deploy builds a fresh context per call)",
     ]
     vlib.std_proof_stage(run, "C13")
     ok, blog = vlib.build_harness()
@@ -665,7 +720,9 @@ def check(run, tier, seed, replay=None):
         if any(e.startswith("harness-") or e.startswith("scenario-") for e in errs):
             run.violation("corr:C13/harness could not observe the collection stage", slim(sc, obs), False)
             continue
-        if not obs["all_identical"]:
+        if not obs["ctx_unchanged"]:
+            run.violation(ID_CTX, slim(sc, obs), True)
+        elif not obs["all_identical"]:
             run.violation(nondet_identity(cls), slim(sc, obs), True)
         if sc["expect_err"] is not None:
             if rendered or any(not d["rejected"] for d in obs.get("deploy_outs") or []):
@@ -685,7 +742,7 @@ def check(run, tier, seed, replay=None):
                 run.violation("corr:C13/case outside the model's hypotheses", slim(sc, obs), False)
                 continue
             g["pname"] = sc["harness"]["package"]["name"]
-            terms.append(cP(case_term(g, obs["all_identical"], sc["expected"]), tcase_term(g)))
+            terms.append(cP(case_term(g, obs["all_identical"], obs["ctx_unchanged"], sc["expected"]), tcase_term(g)))
             where.append((i, g))
     res, logs = vlib.judge_cases("C13", IMPORTS, JUDGE, terms, 5, shard=60)
     for l in logs:
@@ -701,7 +758,7 @@ def check(run, tier, seed, replay=None):
                                files_after=g["files_after"]), False)
         if not mon_ident:
             run.violation(ID_COLLECT, slim(sc, obs), True)
-        elif mon != obs["all_identical"]:
+        elif mon != (obs["all_identical"] and obs["ctx_unchanged"]):
             run.violation("corr:C13/monitor and harness disagree on repeated renders", slim(sc, obs), False)
         if sc["expected"] is not None and not exp_ok:
             # for the formerly order-dependent packages a wrong result is the old defect coming back
@@ -717,9 +774,10 @@ def check(run, tier, seed, replay=None):
         "fixed corpus first (the getFile / keys-values / double-suffix packages that were order-dependent before "
         "10a6940 and 514b770), then structured random packages (1-4 phases, 1-8 object files from a pool of "
         "sort-order-stressing paths, 1-3 documents each, ~45%% templates with helpers/include/guards/range/getFile of static "
-        "files, CEL condition annotations, conditional paths, images from a lock file, ~15%% multi-component), ~16%% with one "
-        "injected defect and a known rejection class, ~12%% byte-damaged; each rendered N times from fresh file maps through the "
-        "deployer's sequence plus the real Deploy; one evaluation = one distinct observation judged in Coq, +1 for the function "
+        "files, ~35%% with templates that write to .config (set/unset/merge/append) read back by another template and by CEL "
+        "conditions, CEL condition annotations, conditional paths, images from a lock file, ~15%% multi-component), ~16%% with one "
+        "injected defect and a known rejection class, ~12%% byte-damaged; each rendered N times from fresh file maps but with ONE render "
+        "context object (digest compared before/after) through the deployer's sequence, plus the real Deploy; one evaluation = one distinct observation judged in Coq, +1 for the function "
         "table sweep over %d names; non-trivial = at least two parsed objects or a classified rejection; distinct = (class, "
         "phase count, object paths, collected objects, rejection classes)" % nfuncs)
     run.cov["samples"] = [slim(scs[i], outs[i].get("obs")) for i in (0, min(6, len(scs) - 1), len(scs) - 1)][:3]
